@@ -363,8 +363,108 @@ class _InlineLits(ast.NodeTransformer):
         return n
 
 
+def _scope_functions(tree, modname):
+    """{scope qualname: {function name: number of parameters}} for module level and each class."""
+    out = {}
+
+    def visit(body, prefix):
+        d = out.setdefault(prefix, {})
+        for n in body:
+            if isinstance(n, (ast.FunctionDef, ast.AsyncFunctionDef)):
+                a = n.args
+                d[n.name] = len(a.posonlyargs + a.args + a.kwonlyargs) + bool(a.vararg) + bool(a.kwarg)
+            elif isinstance(n, ast.ClassDef):
+                visit(n.body, f"{prefix}.{n.name}")
+    visit(tree.body, modname)
+    return out
+
+
+def detect_renames(trees):
+    """E0 normalisation: a PRIVATE function / method that existed when the rules were written is missing from its scope while a function that
+    did not exist then sits in the same scope with the same number of parameters - a rename (with all call sites).  -> {new bare name: old
+    bare name}; applied to definitions and every reference, so rules keep finding their anchors.  Only unambiguous pairs (one candidate per
+    arity in the scope; the new name used nowhere in the pinned code base) are undone."""
+    from .inline import PIN_FUNCS
+    PARAM_RENAMES.clear()
+    pinned_by_scope = {}
+    pinned_names = set()
+    for q, params in PIN_FUNCS.items():
+        scope, nm = q.rsplit(".", 1)
+        pinned_by_scope.setdefault(scope, {})[nm] = len(params)
+        pinned_names.add(nm)
+    ren = {}
+    for modname, tree in trees.items():
+        for scope, present in _scope_functions(tree, modname).items():
+            pinned = pinned_by_scope.get(scope, {})
+            missing = {n: a for n, a in pinned.items() if n not in present and n.startswith("_") and not n.startswith("__")}
+            new = {n: a for n, a in present.items() if n not in pinned and n not in pinned_names}
+            for old, ar in missing.items():
+                cands = [n for n, a in new.items() if a == ar]
+                same_ar_missing = [m_ for m_, a in missing.items() if a == ar]
+                if len(cands) == 1 and len(same_ar_missing) == 1 and cands[0] not in ren:
+                    ren[cands[0]] = old
+                    # the parameters of a renamed function may have been renamed with it: restore them by position
+                    newdef = next((n for n in ast.walk(tree) if isinstance(n, (ast.FunctionDef, ast.AsyncFunctionDef)) and n.name == cands[0]), None)
+                    oldparams = [p_ for p_ in PIN_FUNCS[f"{scope}.{old}"] if not p_.startswith("*")]
+                    if newdef is not None:
+                        a = newdef.args
+                        newparams = [x.arg for x in a.posonlyargs + a.args + a.kwonlyargs]
+                        if len(newparams) == len(oldparams) and newparams != oldparams:
+                            PARAM_RENAMES[old] = dict(zip(newparams, oldparams))
+    return ren
+
+
+PARAM_RENAMES = {}
+
+
+class _Rename(ast.NodeTransformer):
+    def __init__(self, ren):
+        self.ren = ren
+
+    def visit_FunctionDef(self, n):
+        was = n.name
+        n.name = self.ren.get(n.name, n.name)
+        pm = PARAM_RENAMES.get(n.name) if was != n.name else None
+        if pm:
+            taken = {x.id for x in ast.walk(n) if isinstance(x, ast.Name)} - set(pm)
+            if not (set(pm.values()) & taken):
+                for x in ast.walk(n):
+                    if isinstance(x, ast.arg) and x.arg in pm:
+                        x.arg = pm[x.arg]
+                    elif isinstance(x, ast.Name) and x.id in pm:
+                        x.id = pm[x.id]
+        self.generic_visit(n)
+        return n
+
+    def visit_Call(self, n):
+        self.generic_visit(n)
+        f = n.func
+        nm = f.id if isinstance(f, ast.Name) else f.attr if isinstance(f, ast.Attribute) else None
+        pm = PARAM_RENAMES.get(nm)
+        if pm:
+            for k in n.keywords:
+                if k.arg in pm:
+                    k.arg = pm[k.arg]
+        return n
+
+    def visit_Name(self, n):
+        n.id = self.ren.get(n.id, n.id)
+        return n
+
+    def visit_Attribute(self, n):
+        n.attr = self.ren.get(n.attr, n.attr)
+        self.generic_visit(n)
+        return n
+
+    def visit_alias(self, n):
+        n.name = self.ren.get(n.name, n.name)
+        if n.asname:
+            n.asname = self.ren.get(n.asname, n.asname)
+        return n
+
+
 class Module:
-    def __init__(self, name, path, relpath):
+    def __init__(self, name, path, relpath, renames=None):
         self.name = name
         self.path = path
         self.relpath = relpath
@@ -373,6 +473,8 @@ class Module:
             self.tree = ast.parse(self.src, filename=path)
         except SyntaxError as e:
             raise AnalysisError(f"cannot parse {relpath}: {e}")
+        if renames:
+            _Rename(renames).visit(self.tree)
         _drop_noise(self.tree)
         _canon_compare(self.tree)
         if os.environ.get("VSA_CANON_LOOPS", "1") == "1":
@@ -470,6 +572,7 @@ class Repo:
         pkgdir = os.path.join(self.root, PKG)
         if not os.path.isdir(pkgdir):
             raise AnalysisError(f"package directory {pkgdir} not found")
+        files = []
         for dp, dn, fn in os.walk(pkgdir):
             dn[:] = [d for d in dn if d != "__pycache__"]
             for f in sorted(fn):
@@ -479,7 +582,16 @@ class Repo:
                     name = rel[:-3].replace(os.sep, ".")
                     if name.endswith(".__init__"):
                         name = name[: -len(".__init__")]
-                    self.modules[name] = Module(name, path, rel)
+                    files.append((name, path, rel))
+        raw = {}
+        for name, path, rel in files:
+            try:
+                raw[name] = ast.parse(open(path, encoding="utf-8").read(), filename=path)
+            except SyntaxError as e:
+                raise AnalysisError(f"cannot parse {rel}: {e}")
+        self.renames = detect_renames(raw)
+        for name, path, rel in files:
+            self.modules[name] = Module(name, path, rel, self.renames)
         # numeric module constants imported from another module of the package are inlined too
         for m in self.modules.values():
             ext = {}
